@@ -151,6 +151,7 @@ func Run(c *gen.Ctx) error {
 	}
 	stats["streaming_transport_requests"] = streamingTransports(meta, c.Thorough())
 	stats["websocket_endings"] = websocketEndings(meta)
+	stats["websocket_overlapping_operations"] = websocketOverlap(meta)
 	meta.Evaluations = cf.Len()
 	meta.Programs = len(probes)
 	meta.DistinctNontrivial = len(distinct)
